@@ -1,9 +1,11 @@
 // Driver for C20 (AUTO_INCREMENT values are unique, increasing and reported correctly).  Runs generated histories of
-// INSERT / INSERT IGNORE (explicit, NULL, 0 and omitted ids; rows may collide in a second unique column), DELETE and
-// ALTER TABLE ... AUTO_INCREMENT on one table whose id column is TINYINT ... BIGINT UNSIGNED (histories also go to the
-// type's maximum) through the real engine, records after every statement OkResult.InsertID, LAST_INSERT_ID(),
-// Table.PeekNextAutoIncrementValue and the stored ids for the Coq model (Corr/C20.v), and evaluates the property on the
-// implementation alone with an independent reference (MySQL's documented behaviour).
+// INSERT / INSERT IGNORE / REPLACE / INSERT ... ON DUPLICATE KEY UPDATE (explicit, NULL, 0 and omitted ids; rows may collide
+// in a second unique column), DELETE, UPDATE of the id, ALTER TABLE ... AUTO_INCREMENT, SELECT LAST_INSERT_ID(n) and
+// BEGIN / COMMIT / ROLLBACK issued by up to three sessions on one table whose id column is TINYINT ... BIGINT UNSIGNED
+// (histories also go to the type's maximum) through the real engine, records after every statement OkResult.InsertID,
+// LAST_INSERT_ID() of every session, Table.PeekNextAutoIncrementValue and the stored ids (as the acting session sees them)
+// for the Coq model (Corr/C20.v), and evaluates the property on the implementation alone with an independent reference
+// (MySQL's documented behaviour).
 //
 // Ids are handled as "virtual" int64 values: the real id x is x itself while small, and vmax - (tmax - x) near the top of
 // a wide type (the generator only uses small ids and ids within a few steps of the type maximum), which keeps order and
@@ -93,45 +95,76 @@ type Spec struct {
 }
 
 type Event struct {
-	Kind  string `json:"kind"` // insert | ignore | delge | deleq | alter
+	Kind  string `json:"kind"` // insert | ignore | replace | odku | delge | deleq | alter | updid | setlid | begin | commit | rollback
 	Specs []Spec `json:"specs,omitempty"`
 	Omit  bool   `json:"omit,omitempty"` // INSERT INTO t (u, v) VALUES ...  (all ids generated)
 	K     int64  `json:"k,omitempty"`    // virtual
+	K2    int64  `json:"k2,omitempty"`   // updid: the new id (virtual)
+	Act   string `json:"act,omitempty"`  // odku: setv | lid | add
+	D     int64  `json:"d,omitempty"`    // odku add: id = id + d
+	Sess  int    `json:"sess,omitempty"` // acting session
 }
 
 type caseT struct {
 	Type   int      `json:"type"`
+	NS     int      `json:"ns,omitempty"` // number of sessions (default 1)
 	Events []Event  `json:"events"`
 	SQL    []string `json:"sql,omitempty"`
 }
 
+func (e Event) insertLike() bool {
+	return e.Kind == "insert" || e.Kind == "ignore" || e.Kind == "replace" || e.Kind == "odku"
+}
+
 func coqZs(s string) string { return lib.CoqZStr(s) }
 
-func (e Event) Coq(d dom, udup []bool) string {
+func (e Event) Coq(d dom) string {
+	stmt := func(ev string) string { return fmt.Sprintf("(WStmt %d%%nat %s)", e.Sess, ev) }
 	switch e.Kind {
-	case "insert", "ignore":
+	case "insert", "ignore", "replace", "odku":
 		items := make([]string, len(e.Specs))
 		for i, s := range e.Specs {
 			id := "None"
 			if !s.Gen {
 				id = "(Some " + coqZs(d.real(s.K)) + ")"
 			}
-			items[i] = lib.CoqTuple(id, lib.CoqBool(udup[i]))
+			items[i] = lib.CoqTuple(id, lib.CoqZ(s.U))
 		}
-		return fmt.Sprintf("(EInsert %s %s)", lib.CoqBool(e.Kind == "ignore"), lib.CoqList(items))
+		mode := map[string]string{"insert": "MPlain", "ignore": "MIgnore", "replace": "MReplace"}[e.Kind]
+		if e.Kind == "odku" {
+			switch e.Act {
+			case "lid":
+				mode = "(MOdku OLid)"
+			case "add":
+				mode = "(MOdku (OAdd " + lib.CoqZ(e.D) + "))"
+			default:
+				mode = "(MOdku OSetV)"
+			}
+		}
+		return stmt(fmt.Sprintf("(EInsert %s %s)", mode, lib.CoqList(items)))
 	case "delge":
-		return "(EDelGe " + coqZs(d.real(e.K)) + ")"
+		return stmt("(EDelGe " + coqZs(d.real(e.K)) + ")")
 	case "deleq":
-		return "(EDelEq " + coqZs(d.real(e.K)) + ")"
+		return stmt("(EDelEq " + coqZs(d.real(e.K)) + ")")
 	case "alter":
-		return "(EAlter " + coqZs(d.real(e.K)) + ")"
+		return stmt("(EAlter " + coqZs(d.real(e.K)) + ")")
+	case "updid":
+		return stmt("(EUpdId " + coqZs(d.real(e.K)) + " " + coqZs(d.real(e.K2)) + ")")
+	case "setlid":
+		return stmt("(ESetLid " + coqZs(d.real(e.K)) + ")")
+	case "begin":
+		return fmt.Sprintf("(WBegin %d%%nat)", e.Sess)
+	case "commit":
+		return fmt.Sprintf("(WCommit %d%%nat)", e.Sess)
+	case "rollback":
+		return fmt.Sprintf("(WRollback %d%%nat)", e.Sess)
 	}
 	panic("bad event")
 }
 
 func (e Event) SQL(d dom, serial *int64) string {
 	switch e.Kind {
-	case "insert", "ignore":
+	case "insert", "ignore", "replace", "odku":
 		var rows []string
 		for _, s := range e.Specs {
 			*serial++
@@ -149,13 +182,40 @@ func (e Event) SQL(d dom, serial *int64) string {
 			}
 		}
 		q := "INSERT "
-		if e.Kind == "ignore" {
+		switch e.Kind {
+		case "ignore":
 			q += "IGNORE "
+		case "replace":
+			q = "REPLACE "
+		}
+		tail := ""
+		if e.Kind == "odku" {
+			switch e.Act {
+			case "lid":
+				tail = " ON DUPLICATE KEY UPDATE id = LAST_INSERT_ID(id)"
+			case "add":
+				tail = fmt.Sprintf(" ON DUPLICATE KEY UPDATE id = id + %d", e.D)
+				if e.D < 0 {
+					tail = fmt.Sprintf(" ON DUPLICATE KEY UPDATE id = id - %d", -e.D)
+				}
+			default:
+				tail = " ON DUPLICATE KEY UPDATE v = v"
+			}
 		}
 		if e.Omit {
-			return q + "INTO t (u, v) VALUES " + strings.Join(rows, ",")
+			return q + "INTO t (u, v) VALUES " + strings.Join(rows, ",") + tail
 		}
-		return q + "INTO t VALUES " + strings.Join(rows, ",")
+		return q + "INTO t VALUES " + strings.Join(rows, ",") + tail
+	case "updid":
+		return "UPDATE t SET id = " + d.real(e.K2) + " WHERE id = " + d.real(e.K)
+	case "setlid":
+		return "SELECT LAST_INSERT_ID(" + d.real(e.K) + ")"
+	case "begin":
+		return "BEGIN"
+	case "commit":
+		return "COMMIT"
+	case "rollback":
+		return "ROLLBACK"
 	case "delge":
 		return "DELETE FROM t WHERE id >= " + d.real(e.K)
 	case "deleq":
@@ -167,7 +227,7 @@ func (e Event) SQL(d dom, serial *int64) string {
 }
 
 func gen(r *lib.RNG) caseT {
-	c := caseT{Type: r.Intn(len(idTypes))}
+	c := caseT{Type: r.Intn(len(idTypes)), NS: 1}
 	d := newDom(idTypes[c.Type])
 	n := r.Range(6, 14)
 	hi := int64(0) // rough upper bound of the ids in use
@@ -183,28 +243,61 @@ func gen(r *lib.RNG) caseT {
 	var us []int64
 	nextU := int64(0)
 	toTop := r.Chance(1, 3) // this history visits the type maximum
+	// extended statements (UPDATE of the id, ODKU id = ..., LAST_INSERT_ID(n), several sessions, transactions) stay on small ids
+	ext := !toTop && r.Chance(3, 5)
+	txAllowed := false
+	if ext {
+		switch x := r.Intn(20); {
+		case x < 10:
+			c.NS = 1
+		case x < 17:
+			c.NS = 2
+		default:
+			c.NS = 3
+		}
+		txAllowed = r.Chance(2, 5)
+	}
+	inTx := make([]bool, c.NS)
 	for i := 0; i < n; i++ {
 		var e Event
-		k := r.Intn(20)
+		e.Sess = r.Intn(c.NS)
+		k := r.Intn(30)
 		if i == 0 {
 			k = 0
 		}
 		switch {
-		case k < 11:
+		case k < 10:
 			e.Kind = "insert"
-		case k < 14:
+		case k < 13:
 			e.Kind = "ignore"
 		case k < 16:
+			e.Kind = "replace"
+		case k < 19:
+			e.Kind = "odku"
+			e.Act = "setv"
+			if ext {
+				switch x := r.Intn(10); {
+				case x < 2:
+					e.Act = "lid"
+				case x < 4 && hi < 100:
+					e.Act = "add"
+					e.D = int64(r.Range(1, 4))
+					if d.t.Signed && r.Chance(1, 2) {
+						e.D = -int64(r.Range(1, 3))
+					}
+				}
+			}
+		case k < 21:
 			e.Kind = "delge"
 			e.K = clamp(hi - int64(r.Intn(3)))
-		case k < 18:
+		case k < 23:
 			e.Kind = "deleq"
 			if hi >= smallLimit {
 				e.K = clamp(hi - int64(r.Intn(3)))
 			} else {
 				e.K = 1 + int64(r.Intn(int(hi)+1))
 			}
-		default:
+		case k < 25:
 			e.Kind = "alter"
 			switch {
 			case toTop && r.Chance(1, 2):
@@ -216,8 +309,37 @@ func gen(r *lib.RNG) caseT {
 				e.K = clamp(hi + 1 + int64(r.Intn(6)))
 				hi = e.K
 			}
+			if inTx[e.Sess] { // DDL inside a transaction is outside the fragment
+				e = Event{Kind: "insert", Sess: e.Sess}
+			}
+		case k < 27 && ext && hi < 100:
+			e.Kind = "updid"
+			e.K = 1 + int64(r.Intn(int(hi)+1))
+			if r.Chance(1, 4) {
+				e.K2 = hi + int64(r.Range(1, 3)) // at or above the counter
+				hi = e.K2
+			} else {
+				e.K2 = 1 + int64(r.Intn(int(hi)+1))
+			}
+		case k < 28 && ext:
+			e.Kind = "setlid"
+			e.K = int64(r.Range(1, 90))
+		case k < 30 && txAllowed:
+			switch {
+			case !inTx[e.Sess]:
+				e.Kind = "begin"
+				inTx[e.Sess] = true
+			case r.Chance(3, 5):
+				e.Kind = "commit"
+				inTx[e.Sess] = false
+			default:
+				e.Kind = "rollback"
+				inTx[e.Sess] = false
+			}
+		default:
+			e.Kind = "insert"
 		}
-		if e.Kind == "insert" || e.Kind == "ignore" {
+		if e.insertLike() {
 			m := r.Range(1, 3)
 			allGen := true
 			used := map[int64]bool{}
@@ -252,16 +374,13 @@ func gen(r *lib.RNG) caseT {
 				if !s.Gen {
 					allGen = false
 				}
-				// the unique column: mostly fresh, sometimes a value used by an earlier statement
+				// the unique column: mostly fresh, sometimes a value used by an earlier statement (pairwise different
+				// within one statement)
 				nextU++
 				s.U = nextU
-				if len(us) > 0 && r.Chance(1, 5) {
+				if len(us) > 0 && r.Chance(1, 4) {
 					if o := lib.Pick(r, us); !used[o] {
 						s.U = o
-						// a row that may be skipped as a duplicate in u does not carry an explicit id above the counter (Corr/C20.v: risky)
-						if !s.Gen && s.K > 0 {
-							s.K = 1 + int64(r.Intn(2))
-						}
 					}
 				}
 				used[s.U] = true
@@ -280,8 +399,8 @@ func gen(r *lib.RNG) caseT {
 }
 
 // The predicate below needs no id counter of its own: which ids the engine generates is judged only by freshness (above
-// every id in use), and whether a statement must fail only by what is independent of the counter (a duplicate explicit
-// id, a duplicate u value, the type maximum being used up).
+// every id in use, equal to no stored id), and whether a statement must fail only by what is independent of the counter
+// (a duplicate explicit id, a duplicate u value, the type maximum being used up).
 
 func peek(s *eng.S) (uint64, error) {
 	db, err := s.E.Pro.Database(s.Ctx, "db")
@@ -304,36 +423,77 @@ var sigCount = map[string]int{}
 func run(c *lib.Ctx, cs caseT) {
 	d := newDom(idTypes[cs.Type])
 	e := eng.New("db")
-	se := e.Session()
+	if cs.NS < 1 {
+		cs.NS = 1
+	}
+	sess := make([]*eng.S, cs.NS)
+	for i := range sess {
+		sess[i] = e.Session()
+	}
 	create := "CREATE TABLE t (id " + d.t.SQL + " NOT NULL AUTO_INCREMENT PRIMARY KEY, u BIGINT, v BIGINT, UNIQUE KEY uu (u))"
-	se.MustExec(create)
+	sess[0].MustExec(create)
 	cs.SQL = []string{create}
-	preIDs := map[int64]bool{} // ids stored before the statement (observed)
-	lowBound := int64(1)       // the id counter is at least this (ids stored so far, ALTER values); vmax + 1 = used up
+	lowBound := int64(1) // the id counter is at least this (ids stored so far, ALTER values); vmax + 1 = used up
 	var steps []string
 	type pf struct{ sig, what string }
 	var fails []pf
 	serial := int64(0)
-	prevLID := int64(0)
-	floor := int64(0) // every generated id must exceed it: ids stored now or inserted since the last ALTER
-	lowered := false  // an ALTER TABLE ... AUTO_INCREMENT = n with n <= max(id) happened
+	prevLID := make([]int64, cs.NS)
+	floor := int64(0)      // every generated id must exceed it: ids stored now or inserted since the last ALTER (committed)
+	lowered := false       // an ALTER TABLE ... AUTO_INCREMENT = n with n <= max(id) happened
+	updatedAbove := false  // an UPDATE (plain or ODKU id = id + d) produced an id above every id ever inserted
+	overwritten := false   // a COMMIT stored a transaction's copy over what other sessions had committed meanwhile
+	maxInserted := int64(0) // largest id ever inserted or named by ALTER
+	dbVersion := 0
+	inTx := make([]bool, cs.NS)
+	txFloor := make([]int64, cs.NS)
+	txVersion := make([]int, cs.NS)
+	txGens := make([][]int64, cs.NS)
 	interesting := false
-	storedU := map[int64]bool{}
 	c.Count("id_type_" + strings.ReplaceAll(d.t.SQL, " ", "_"))
+	c.Count(fmt.Sprintf("sessions_%d", cs.NS))
 	for _, ev := range cs.Events {
+		if ev.Sess < 0 || ev.Sess >= cs.NS {
+			ev.Sess = 0
+		}
+		se := sess[ev.Sess]
 		before := serial
 		q := ev.SQL(d, &serial)
-		cs.SQL = append(cs.SQL, q)
+		label := q
+		if cs.NS > 1 {
+			label = fmt.Sprintf("[session %d] %s", ev.Sess, q)
+		}
+		cs.SQL = append(cs.SQL, label)
+		// what the acting session sees before the statement
+		pre := se.Query("SELECT id, u FROM t")
+		if pre.Err != nil {
+			fails = append(fails, pf{"observe-failed", fmt.Sprint(pre.Err)})
+			break
+		}
+		preIDs := map[int64]bool{}
+		storedU := map[int64]int64{}
 		preMax := int64(0)
-		for k := range preIDs {
+		for _, r := range pre.Rows {
+			x, err := d.fromEngine(r[0], false)
+			if err != nil {
+				continue
+			}
+			k := d.virt(x)
+			preIDs[k] = true
 			if k > preMax {
 				preMax = k
 			}
+			if k+1 > lowBound {
+				lowBound = k + 1
+			}
+			if r[1] != nil {
+				storedU[r[1].(int64)] = k
+			}
 		}
 		exhausted := lowBound > d.vmax // the type maximum has been used
-		udup := make([]bool, len(ev.Specs))
-		for i, s := range ev.Specs {
-			udup[i] = storedU[s.U]
+		fl := &floor
+		if inTx[ev.Sess] {
+			fl = &txFloor[ev.Sess]
 		}
 		res := se.Query(q)
 		if res.Panic != "" {
@@ -346,28 +506,34 @@ func run(c *lib.Ctx, cs caseT) {
 			break
 		}
 		insertID := uint64(0)
-		if succeeded && ev.Kind != "alter" {
+		if succeeded && len(res.Rows) > 0 && len(res.Rows[0]) > 0 {
 			if okr, ok := res.Rows[0][0].(types.OkResult); ok {
 				insertID = okr.InsertID
 			}
 		}
-		lr := se.Query("SELECT LAST_INSERT_ID()")
+		lids := make([]*big.Int, cs.NS)
+		var obsErr error
+		for i, s2 := range sess {
+			lr := s2.Query("SELECT LAST_INSERT_ID()")
+			if lr.Err != nil || len(lr.Rows) != 1 {
+				obsErr = fmt.Errorf("LAST_INSERT_ID(): %v", lr.Err)
+				break
+			}
+			if lids[i], obsErr = d.fromEngine(lr.Rows[0][0], true); obsErr != nil {
+				break
+			}
+		}
 		ctrNow, err2 := peek(se)
 		sel := se.Query("SELECT id, u, v FROM t ORDER BY id")
-		if lr.Err != nil || len(lr.Rows) != 1 || err2 != nil || sel.Err != nil {
-			fails = append(fails, pf{"observe-failed", fmt.Sprint(lr.Err, err2, sel.Err)})
+		if obsErr != nil || err2 != nil || sel.Err != nil {
+			fails = append(fails, pf{"observe-failed", fmt.Sprint(obsErr, err2, sel.Err)})
 			break
 		}
-		lidBig, err := d.fromEngine(lr.Rows[0][0], true)
-		if err != nil {
-			fails = append(fails, pf{"observe-failed", err.Error()})
-			break
-		}
+		lidBig := lids[ev.Sess]
 		lidNow := d.virt(lidBig)
 		var ids []int64
 		var idsReal []string
 		byV := map[int64]int64{}
-		storedU = map[int64]bool{}
 		for _, r := range sel.Rows {
 			x, err := d.fromEngine(r[0], false)
 			if err != nil {
@@ -379,13 +545,20 @@ func run(c *lib.Ctx, cs caseT) {
 			if r[2] != nil {
 				byV[r[2].(int64)] = d.virt(x)
 			}
-			if r[1] != nil {
-				storedU[r[1].(int64)] = true
-			}
 		}
-		steps = append(steps, lib.CoqTuple(ev.Coq(d, udup), lib.CoqTuple(lib.CoqBool(succeeded), fmt.Sprintf("%d%%Z", insertID), coqZs(lidBig.String()),
+		lidStrs := make([]string, len(lids))
+		for i, l := range lids {
+			lidStrs[i] = coqZs(l.String())
+		}
+		steps = append(steps, lib.CoqTuple(ev.Coq(d), lib.CoqTuple(lib.CoqBool(succeeded), fmt.Sprintf("%d%%Z", insertID), lib.CoqList(lidStrs),
 			fmt.Sprintf("%d%%Z", ctrNow), lib.CoqListOf(idsReal, coqZs))))
 		c.Count("stmt_" + ev.Kind)
+		if ev.Kind == "odku" {
+			c.Count("odku_" + ev.Act)
+		}
+		if inTx[ev.Sess] && ev.insertLike() {
+			c.Count("stmt_in_transaction")
+		}
 
 		// ---- property predicate on the implementation alone ----
 		after := "other"
@@ -394,19 +567,36 @@ func run(c *lib.Ctx, cs caseT) {
 			after = "after-alter-below-max"
 		case exhausted:
 			after = "at-type-maximum"
+		case overwritten:
+			after = "after-commit-overwrote-other-sessions"
+		case updatedAbove:
+			after = "after-update-above-counter"
 		}
-		where := fmt.Sprintf("%s (table %s; history: %s)", q, create, strings.Join(cs.SQL[1:len(cs.SQL)-1], "; "))
+		where := fmt.Sprintf("%s (table %s; history: %s)", label, create, strings.Join(cs.SQL[1:len(cs.SQL)-1], "; "))
+		// LAST_INSERT_ID() is per session: no statement changes the value of another session
+		for i := range sess {
+			if i != ev.Sess && d.virt(lids[i]) != prevLID[i] {
+				fails = append(fails, pf{"last-insert-id-of-another-session-changed/" + ev.Kind,
+					fmt.Sprintf("%s: LAST_INSERT_ID() of session %d went %s -> %s", where, i, d.real(prevLID[i]), lids[i].String())})
+			}
+		}
+		unchangedLID := func() {
+			if lidNow != prevLID[ev.Sess] {
+				fails = append(fails, pf{"last-insert-id-changed-without-generated-value/" + ev.Kind + "/other",
+					fmt.Sprintf("%s: LAST_INSERT_ID() %s -> %s", where, d.real(prevLID[ev.Sess]), lidBig.String())})
+			}
+		}
 		switch ev.Kind {
-		case "insert", "ignore":
+		case "insert", "ignore", "replace", "odku":
 			// must the statement fail, whatever the counter is?  (plain INSERT: a duplicate explicit id or u value)
 			mustFail, explicitClash := false, false
 			seenK := map[int64]bool{}
 			nGen := int64(0)
-			for i, s := range ev.Specs {
+			for _, s := range ev.Specs {
 				if s.Gen {
 					nGen++
 				}
-				if udup[i] {
+				if _, dup := storedU[s.U]; dup {
 					mustFail = true
 				}
 				if !s.Gen {
@@ -419,7 +609,8 @@ func run(c *lib.Ctx, cs caseT) {
 					}
 				}
 			}
-			if ev.Kind == "insert" {
+			switch ev.Kind {
+			case "insert":
 				switch {
 				case succeeded && mustFail:
 					interesting = true
@@ -427,11 +618,33 @@ func run(c *lib.Ctx, cs caseT) {
 				case !succeeded && !mustFail && !explicitClash && lowBound+nGen-1 <= d.vmax:
 					// only generated ids can have collided: legitimate only when the ids up to the type maximum do not suffice
 					interesting = true
-					fails = append(fails, pf{"insert-of-generated-ids-rejected/" + after, fmt.Sprintf("%s: %v", where, res.Err)})
+					if updatedAbove && !lowered {
+						// an UPDATE put an id at or above the counter; whether the counter must follow is not part of the property
+						c.Count("tolerated:generated-insert-rejected-after-update-above-counter")
+					} else {
+						fails = append(fails, pf{"insert-of-generated-ids-rejected/" + after, fmt.Sprintf("%s: %v", where, res.Err)})
+					}
+				}
+			case "replace":
+				if !succeeded {
+					fails = append(fails, pf{"replace-rejected/" + after, fmt.Sprintf("%s: %v", where, res.Err)})
+				}
+			case "odku":
+				if !succeeded && ev.Act != "add" { // id = id + d may legally hit a stored id
+					fails = append(fails, pf{"odku-rejected/" + after, fmt.Sprintf("%s: %v", where, res.Err)})
 				}
 			}
 			if !succeeded {
 				interesting = true
+				break
+			}
+			if ev.Kind == "odku" && ev.Act == "add" && (explicitClash || lowered || len(seenK) < len(ev.Specs)-int(nGen)) {
+				// id = id + d may have moved a row inserted by this very statement: its rows cannot be told apart by
+				// observation; not judged (the comparison with the model still covers it)
+				c.Count("not-judged:odku-add-may-move-own-rows")
+				if ev.D > 0 {
+					updatedAbove = true
+				}
 				break
 			}
 			// what happened to this statement's rows, in row order
@@ -447,9 +660,11 @@ func run(c *lib.Ctx, cs caseT) {
 			skippedBeforeFg := false
 			fgSkippedThenExplicit := false // row fgIdx was skipped and the next inserted row has an explicit id
 			fgSkipped := false
+			anyNotInserted := false
 			for i, s := range ev.Specs {
 				id, ok := byV[before+int64(i)+1]
 				if !ok {
+					anyNotInserted = true
 					if fgIdx >= 0 && i < fgIdx {
 						skippedBeforeFg = true
 					}
@@ -463,7 +678,7 @@ func run(c *lib.Ctx, cs caseT) {
 					fgSkipped = false
 				}
 				if s.Gen {
-					if id <= floor {
+					if id <= *fl || preIDs[id] {
 						interesting = true
 						sig := "generated-id-not-above-ids-in-use/other"
 						switch {
@@ -471,8 +686,15 @@ func run(c *lib.Ctx, cs caseT) {
 							sig = "generated-id-not-above-ids-in-use/after-alter-below-max"
 						case exhausted && id == d.vmax:
 							sig = "generated-id-not-above-ids-in-use/reuses-the-type-maximum-after-delete"
+						case overwritten:
+							sig = "generated-id-not-above-ids-in-use/after-commit-overwrote-other-sessions"
+						case preIDs[id] && id > *fl && updatedAbove && ev.Kind == "replace":
+							sig = "generated-id-equals-stored-id/replace-after-update-above-counter"
 						}
-						fails = append(fails, pf{sig, fmt.Sprintf("%s: generated id %s although %s was already in use", where, d.real(id), d.real(floor))})
+						fails = append(fails, pf{sig, fmt.Sprintf("%s: generated id %s although %s was already in use", where, d.real(id), d.real(max64(*fl, id)))})
+					}
+					if inTx[ev.Sess] {
+						txGens[ev.Sess] = append(txGens[ev.Sess], id)
 					}
 					if !haveGen {
 						haveGen, firstGen = true, id
@@ -480,16 +702,48 @@ func run(c *lib.Ctx, cs caseT) {
 				} else if !haveGen {
 					explicitBefore = true
 				}
-				if id > floor {
-					floor = id
+				if id > *fl {
+					*fl = id
+				}
+				if id > maxInserted {
+					maxInserted = id
+				}
+			}
+			if ev.Kind == "odku" && ev.Act == "add" && anyNotInserted {
+				for _, k := range ids { // an id moved above everything ever inserted
+					if k > maxInserted && !preIDs[k] {
+						updatedAbove = true
+					}
 				}
 			}
 			cause := "other"
 			switch {
+			case ev.Kind == "replace":
+				cause = "replace"
 			case ev.Kind == "ignore" && skippedBeforeFg:
 				cause = "ignore-skipped-a-row-before-it"
 			case ev.Kind == "ignore" && fgSkippedThenExplicit:
 				cause = "ignore-first-generated-row-skipped-then-explicit-row"
+			case ev.Kind == "odku" && skippedBeforeFg:
+				cause = "odku-updated-a-row-before-it"
+			case ev.Kind == "odku" && fgSkippedThenExplicit:
+				cause = "odku-first-generated-row-updated-then-explicit-row"
+			}
+			if ev.Kind == "odku" && ev.Act == "lid" && anyNotInserted {
+				// LAST_INSERT_ID(expr) was evaluated: judged only for a single row (the value is the existing row's id)
+				if len(ev.Specs) == 1 {
+					s := ev.Specs[0]
+					want, known := int64(0), false
+					if !s.Gen && preIDs[s.K] {
+						want, known = s.K, true
+					} else if k, ok := storedU[s.U]; ok {
+						want, known = k, true
+					}
+					if known && lidNow != want {
+						fails = append(fails, pf{"last-insert-id-expr-not-reported/odku", fmt.Sprintf("%s: LAST_INSERT_ID() = %s, expected the updated row's id %s", where, lidBig.String(), d.real(want))})
+					}
+				}
+				break
 			}
 			if haveGen {
 				if lidNow != firstGen {
@@ -501,20 +755,75 @@ func run(c *lib.Ctx, cs caseT) {
 				if d.virt(iid) != firstGen {
 					interesting = true
 					sig := "ok-insert-id-not-first-generated/" + after
-					if explicitBefore {
+					switch {
+					case ev.Kind == "replace" || ev.Kind == "odku":
+						sig = "ok-insert-id-not-first-generated/" + cause
+					case explicitBefore:
 						sig = "ok-insert-id-not-first-generated/explicit-id-row-before-it"
 					}
 					fails = append(fails, pf{sig, fmt.Sprintf("%s: OkResult.InsertID = %d, first id generated by the statement = %s", where, insertID, d.real(firstGen))})
 				}
-			} else if lidNow != prevLID {
+			} else if lidNow != prevLID[ev.Sess] {
 				interesting = true
 				fails = append(fails, pf{"last-insert-id-changed-without-generated-value/" + ev.Kind + "/" + cause,
-					fmt.Sprintf("%s: LAST_INSERT_ID() %s -> %s although the statement generated no id", where, d.real(prevLID), lidBig.String())})
+					fmt.Sprintf("%s: LAST_INSERT_ID() %s -> %s although the statement generated no id", where, d.real(prevLID[ev.Sess]), lidBig.String())})
 			}
 		case "delge", "deleq":
-			if lidNow != prevLID {
-				fails = append(fails, pf{"last-insert-id-changed-without-generated-value/" + ev.Kind + "/other", fmt.Sprintf("%s: LAST_INSERT_ID() %s -> %s", where, d.real(prevLID), lidBig.String())})
+			unchangedLID()
+		case "updid":
+			// must fail exactly when the old id exists, the new one differs and is taken
+			must := preIDs[ev.K] && ev.K2 != ev.K && preIDs[ev.K2]
+			switch {
+			case succeeded && must:
+				fails = append(fails, pf{"update-id-accepted-with-duplicate/" + after, where})
+			case !succeeded && !must:
+				fails = append(fails, pf{"update-id-rejected/" + after, fmt.Sprintf("%s: %v", where, res.Err)})
 			}
+			if succeeded && preIDs[ev.K] && ev.K2 > maxInserted {
+				updatedAbove = true
+				interesting = true
+			}
+			unchangedLID()
+		case "setlid":
+			if lidNow != ev.K {
+				fails = append(fails, pf{"last-insert-id-expr-not-reported/select", fmt.Sprintf("%s: LAST_INSERT_ID() = %s", where, lidBig.String())})
+			}
+		case "begin":
+			if inTx[ev.Sess] { // implicit commit of the open transaction
+				if txFloor[ev.Sess] > floor {
+					floor = txFloor[ev.Sess]
+				}
+				dbVersion++
+			}
+			inTx[ev.Sess] = true
+			txFloor[ev.Sess] = floor
+			txVersion[ev.Sess] = dbVersion
+			txGens[ev.Sess] = nil
+			unchangedLID()
+		case "commit":
+			if inTx[ev.Sess] {
+				// the transaction's rows become visible now: its generated ids must not be ids other sessions used meanwhile
+				for _, id := range txGens[ev.Sess] {
+					if id <= floor {
+						interesting = true
+						fails = append(fails, pf{"generated-id-not-above-ids-in-use/transaction-committed-after-other-sessions-used-the-id",
+							fmt.Sprintf("%s: the transaction generated id %s, which another session was given and committed meanwhile", where, d.real(id))})
+						break
+					}
+				}
+				if dbVersion != txVersion[ev.Sess] {
+					overwritten = true
+				}
+				if txFloor[ev.Sess] > floor {
+					floor = txFloor[ev.Sess]
+				}
+				dbVersion++
+				inTx[ev.Sess] = false
+			}
+			unchangedLID()
+		case "rollback":
+			inTx[ev.Sess] = false // ids generated inside may be generated again: uniqueness is over committed statements
+			unchangedLID()
 		case "alter":
 			// MySQL: the counter cannot be set at or below the largest id in the table
 			if ev.K <= preMax {
@@ -523,15 +832,19 @@ func run(c *lib.Ctx, cs caseT) {
 			} else {
 				lowBound = ev.K
 			}
-			floor = preMax // an explicit reset: ids freed by earlier deletes may be handed out again
-			if lidNow != prevLID {
-				fails = append(fails, pf{"last-insert-id-changed-without-generated-value/alter/other", fmt.Sprintf("%s: LAST_INSERT_ID() %s -> %s", where, d.real(prevLID), lidBig.String())})
+			if ev.K > maxInserted {
+				maxInserted = ev.K - 1
 			}
+			floor = preMax // an explicit reset: ids freed by earlier deletes may be handed out again
+			unchangedLID()
 		}
-		prevLID = lidNow // after a failed INSERT the value is unspecified: accept whatever it is now
-		preIDs = map[int64]bool{}
+		if succeeded && !inTx[ev.Sess] && ev.Kind != "begin" && ev.Kind != "commit" && ev.Kind != "rollback" && ev.Kind != "setlid" {
+			dbVersion++
+		}
+		for i := range sess {
+			prevLID[i] = d.virt(lids[i]) // after a failed INSERT the value is unspecified: accept whatever it is now
+		}
 		for _, k := range ids {
-			preIDs[k] = true
 			if k+1 > lowBound {
 				lowBound = k + 1
 			}
@@ -555,6 +868,13 @@ func run(c *lib.Ctx, cs caseT) {
 			sigCount[f.sig]++
 		}
 	}
+}
+
+func max64(a, b int64) int64 {
+	if a > b {
+		return a
+	}
+	return b
 }
 
 func g(form string, u int64) Spec { return Spec{Gen: true, Form: form, U: u} }
@@ -589,6 +909,36 @@ func corpus() []caseT {
 		{Type: 3, Events: []Event{{Kind: "insert", Specs: []Spec{x(255, 1)}}, {Kind: "insert", Specs: []Spec{g("null", 2)}}, {Kind: "insert", Specs: []Spec{x(254, 3)}}}},
 		{Type: 0, Events: []Event{{Kind: "insert", Specs: []Spec{x(top, 1)}}, {Kind: "insert", Specs: []Spec{g("null", 2)}}, {Kind: "deleq", K: top},
 			{Kind: "insert", Specs: []Spec{g("null", 3)}}}},
+		// REPLACE: generated / explicit existing / explicit new ids, conflicts in u; LAST_INSERT_ID() is not set
+		{Type: 0, Events: []Event{{Kind: "insert", Specs: []Spec{g("null", 1), g("null", 2), g("null", 3)}}, {Kind: "replace", Specs: []Spec{g("null", 4)}},
+			{Kind: "replace", Specs: []Spec{g("null", 2)}}, {Kind: "replace", Specs: []Spec{x(1, 10)}}, {Kind: "replace", Specs: []Spec{x(20, 11)}},
+			{Kind: "replace", Specs: []Spec{x(3, 11)}}, {Kind: "replace", Specs: []Spec{x(30, 12), g("null", 13)}}, {Kind: "replace", Specs: []Spec{g("zero", 14), g("null", 15)}},
+			{Kind: "insert", Specs: []Spec{g("null", 16)}}}},
+		// ON DUPLICATE KEY UPDATE: update path before / at the first generated row; explicit id above the counter on the update path
+		{Type: 0, Events: []Event{{Kind: "insert", Specs: []Spec{g("null", 1)}}, {Kind: "odku", Act: "setv", Specs: []Spec{x(1, 2), g("null", 3), x(20, 4)}},
+			{Kind: "odku", Act: "setv", Specs: []Spec{g("null", 1), x(30, 5)}}, {Kind: "odku", Act: "setv", Specs: []Spec{x(50, 1)}},
+			{Kind: "odku", Act: "setv", Specs: []Spec{g("null", 1), g("null", 6)}}, {Kind: "odku", Act: "lid", Specs: []Spec{g("null", 4)}},
+			{Kind: "odku", Act: "add", D: 100, Specs: []Spec{g("null", 4)}}, {Kind: "insert", Specs: []Spec{g("null", 7)}}, {Kind: "setlid", K: 77},
+			{Kind: "odku", Act: "add", D: -1, Specs: []Spec{x(1, 8)}}}},
+		// UPDATE of the id: to the counter's value; REPLACE then generates that id and destroys the row; plain INSERT is stuck
+		{Type: 0, Events: []Event{{Kind: "insert", Specs: []Spec{g("null", 1), g("null", 2), g("null", 3)}}, {Kind: "updid", K: 1, K2: 4},
+			{Kind: "replace", Specs: []Spec{g("null", 9)}}, {Kind: "updid", K: 2, K2: 5}, {Kind: "insert", Specs: []Spec{g("null", 10)}},
+			{Kind: "insert", Specs: []Spec{g("null", 11)}}, {Kind: "updid", K: 3, K2: 4}, {Kind: "updid", K: 3, K2: 2}, {Kind: "updid", K: 7, K2: 8}}},
+		// two sessions: alternating inserts, LAST_INSERT_ID() per session; a failing multi-row INSERT restores the counter
+		{Type: 0, NS: 3, Events: []Event{{Kind: "insert", Specs: []Spec{g("null", 1), g("null", 2)}}, {Kind: "insert", Sess: 1, Specs: []Spec{g("null", 3)}},
+			{Kind: "insert", Sess: 0, Specs: []Spec{g("null", 4)}}, {Kind: "insert", Sess: 2, Specs: []Spec{g("null", 5), g("null", 6)}},
+			{Kind: "insert", Sess: 1, Specs: []Spec{g("null", 7), g("null", 8), g("null", 1)}}, {Kind: "insert", Sess: 0, Specs: []Spec{x(100, 9), g("null", 1)}},
+			{Kind: "insert", Sess: 1, Specs: []Spec{g("null", 10)}}, {Kind: "setlid", Sess: 2, K: 5}, {Kind: "deleq", Sess: 0, K: 8}, {Kind: "insert", Sess: 2, Specs: []Spec{g("null", 11)}}}},
+		// transactions: ROLLBACK takes the counter back; COMMIT after another session's insert hands the same id out twice
+		{Type: 0, NS: 2, Events: []Event{{Kind: "insert", Specs: []Spec{g("null", 1)}}, {Kind: "begin"}, {Kind: "insert", Specs: []Spec{g("null", 2)}},
+			{Kind: "insert", Specs: []Spec{g("null", 3)}}, {Kind: "rollback"}, {Kind: "insert", Specs: []Spec{g("null", 4)}}, {Kind: "begin"},
+			{Kind: "insert", Specs: []Spec{g("null", 5)}}, {Kind: "insert", Sess: 1, Specs: []Spec{g("null", 6)}}, {Kind: "commit"},
+			{Kind: "insert", Sess: 1, Specs: []Spec{g("null", 7)}}}},
+		// INSERT IGNORE with a skipped explicit id above the counter: the two copies of the table data
+		{Type: 0, Events: []Event{{Kind: "insert", Specs: []Spec{g("null", 1), g("null", 2), g("null", 3)}}, {Kind: "ignore", Specs: []Spec{x(100, 1), g("null", 5)}},
+			{Kind: "ignore", Specs: []Spec{g("null", 6), x(200, 1), g("null", 8)}}, {Kind: "ignore", Specs: []Spec{g("null", 9), x(300, 1)}},
+			{Kind: "insert", Specs: []Spec{g("null", 11)}}, {Kind: "deleq", K: 3}, {Kind: "ignore", Specs: []Spec{g("null", 12), x(400, 1), x(3, 14)}},
+			{Kind: "ignore", Specs: []Spec{x(500, 1)}}, {Kind: "ignore", Specs: []Spec{x(600, 1), g("null", 2)}}, {Kind: "insert", Specs: []Spec{g("null", 20)}}}},
 	}
 }
 
@@ -598,10 +948,12 @@ func main() {
 		c.CaseType = "C20.case"
 		c.MismatchFn = "C20.mismatches"
 		c.SetRule("one table t(id <TYPE> AUTO_INCREMENT PRIMARY KEY, u UNIQUE, v) per case, TYPE in BIGINT, BIGINT UNSIGNED, TINYINT [UNSIGNED], " +
-			"SMALLINT, INT UNSIGNED; 6-14 statements: INSERT / INSERT IGNORE of 1-3 rows with generated (NULL, 0, column omitted), explicit " +
-			"(near the current maximum, colliding or beyond, 1/3 of the histories also at the type's maximum) and negative ids, 1/5 of the rows " +
-			"duplicate in u; DELETE of the top ids or of one id; ALTER TABLE AUTO_INCREMENT = n (also below MAX(id) and at the type maximum). " +
-			"A case is non-trivial when a statement failed or disagreed with the reference; distinct = distinct SQL texts.")
+			"SMALLINT, INT UNSIGNED; 6-14 statements: INSERT / INSERT IGNORE / REPLACE / INSERT ... ON DUPLICATE KEY UPDATE (v = const; id = " +
+			"LAST_INSERT_ID(id); id = id + d) of 1-3 rows with generated (NULL, 0, column omitted), explicit (near the current maximum, colliding " +
+			"or beyond, 1/3 of the histories also at the type's maximum) and negative ids, 1/4 of the rows duplicate in u; DELETE of the top ids or " +
+			"of one id; ALTER TABLE AUTO_INCREMENT = n (also below MAX(id) and at the type maximum); in 2/5 of the histories also UPDATE of the id " +
+			"(1/4 above the counter), SELECT LAST_INSERT_ID(n), 1-3 sessions alternating at statement granularity, and in 2/5 of those BEGIN / COMMIT / " +
+			"ROLLBACK. A case is non-trivial when a statement failed or disagreed with the reference; distinct = distinct SQL texts.")
 		if c.ReplayFile != "" {
 			var cs caseT
 			lib.LoadReplay(c.ReplayFile, &cs)
